@@ -347,6 +347,20 @@ fn cases(rng: &mut Rng, thorough: bool) -> Vec<Req> {
         // a form body on the JSON endpoint and vice versa
         v.push(req("json", "POST", b"/json", ct.as_deref(), Framing::Cl, form_body));
         v.push(req("form", "POST", b"/form", ct.as_deref(), Framing::Cl, j2));
+        // an empty body is still judged by its content type: on an endpoint whose
+        // (all-optional) type accepts it, on one that needs fields, and on a JSON endpoint
+        v.push(req("formopt", "POST", b"/formopt", ct.as_deref(), Framing::Cl, b""));
+        v.push(req("formopt", "POST", b"/formopt", ct.as_deref(), Framing::Cl, b"o=5&q=true"));
+        v.push(req("form", "POST", b"/form", ct.as_deref(), Framing::Cl, b""));
+        v.push(req("json", "POST", b"/json", ct.as_deref(), Framing::Cl, b""));
+        v.push(req(
+            "formopt",
+            "POST",
+            b"/formopt",
+            ct.as_deref(),
+            Framing::Ch { splits: vec![], exts: vec![], last_ext: vec![], trailers: vec![] },
+            b"",
+        ));
     }
 
     // ---------------------------------------------------------------- url-encoded body
